@@ -333,6 +333,9 @@ func run(prop string, cfg propCfg, tier string, seed uint64) int {
 	wg.Wait()
 	sort.Slice(runs, func(i, j int) bool {
 		if runs[i].Pass.Name != runs[j].Pass.Name {
+			if runs[i].Pass.Name == "main" || runs[j].Pass.Name == "main" {
+				return runs[i].Pass.Name == "main"
+			}
 			return runs[i].Pass.Name < runs[j].Pass.Name
 		}
 		return runs[i].Shard < runs[j].Shard
